@@ -290,7 +290,7 @@ func (w *fw) paragraph(depth int) string {
 	}
 	n := w.r.Range(0, 4)
 	for i := 0; i < n; i++ {
-		k := w.r.Intn(16)
+		k := w.r.Intn(17)
 		if w.opts.Simple {
 			k = 0
 		}
@@ -341,6 +341,12 @@ func (w *fw) paragraph(depth int) string {
 			w.wrap = "fldSimple"
 			b.WriteString(`<` + w.el("fldSimple") + w.at("instr", " AUTHOR ") + `>` + w.run(w.word()) + "</" + w.el("fldSimple") + ">")
 			w.wrap = ""
+		case 14:
+			// phonetic guide: both the base text and the guide text are runs inside a run
+			w.feature("ruby")
+			w.wrap = "ruby"
+			b.WriteString("<" + w.el("r") + "><" + w.el("ruby") + "><" + w.el("rubyPr") + "/><" + w.el("rt") + ">" + w.run(w.word()) + "</" + w.el("rt") + "><" + w.el("rubyBase") + ">" + w.run(w.word()) + "</" + w.el("rubyBase") + "></" + w.el("ruby") + "></" + w.el("r") + ">")
+			w.wrap = ""
 		case 11:
 			w.feature("tab-br")
 			b.WriteString("<" + w.el("r") + "><" + w.el("tab") + "/><" + w.el("br") + "/></" + w.el("r") + ">")
@@ -368,19 +374,56 @@ func (w *fw) table(depth int) string {
 	} else {
 		w.feature("table-without-grid")
 	}
+	// content controls (and custom XML markup) may wrap a whole row, a whole cell, or the blocks inside a cell
+	wrapOpen := func(kind string) (string, string) {
+		if kind == "customXml" {
+			return "<" + w.el("customXml") + w.at("uri", "urn:x") + w.at("element", "e") + ">", "</" + w.el("customXml") + ">"
+		}
+		return "<" + w.el("sdt") + "><" + w.el("sdtPr") + "/><" + w.el("sdtContent") + ">", "</" + w.el("sdtContent") + "></" + w.el("sdt") + ">"
+	}
 	for i := 0; i < rows; i++ {
-		b.WriteString("<" + w.el("tr") + ">")
+		rowOpen, rowClose := "", ""
+		savedBlock := w.block
+		if !w.opts.Simple && w.block == "" && w.r.Chance(1, 10) {
+			kind := []string{"sdt", "customXml"}[w.r.Intn(2)]
+			rowOpen, rowClose = wrapOpen(kind)
+			w.block = kind + "-around-row"
+			w.feature(w.block)
+		}
+		b.WriteString(rowOpen + "<" + w.el("tr") + ">")
 		for j := 0; j < cols; j++ {
-			b.WriteString("<" + w.el("tc") + "><" + w.el("tcPr") + "><" + w.el("tcW") + w.at("w", "1000") + w.at("type", "dxa") + "/></" + w.el("tcPr") + ">")
-			b.WriteString(w.paragraph(depth + 1))
+			cellOpen, cellClose := "", ""
+			cellBlock := w.block
+			if !w.opts.Simple && w.block == "" && w.r.Chance(1, 10) {
+				kind := []string{"sdt", "customXml"}[w.r.Intn(2)]
+				cellOpen, cellClose = wrapOpen(kind)
+				w.block = kind + "-around-cell"
+				w.feature(w.block)
+			}
+			b.WriteString(cellOpen + "<" + w.el("tc") + "><" + w.el("tcPr") + "><" + w.el("tcW") + w.at("w", "1000") + w.at("type", "dxa") + "/></" + w.el("tcPr") + ">")
+			if !w.opts.Simple && w.block == "" && w.r.Chance(1, 10) {
+				kind := []string{"sdt", "customXml"}[w.r.Intn(2)]
+				o, cl := wrapOpen(kind)
+				w.block = kind + "-in-cell"
+				w.feature(w.block)
+				b.WriteString(o + w.paragraph(depth+1) + cl)
+				w.block = ""
+				if w.r.Bool() {
+					b.WriteString(w.paragraph(depth + 1)) // a cell ends in a paragraph of its own
+				}
+			} else {
+				b.WriteString(w.paragraph(depth + 1))
+			}
 			if depth < 1 && w.r.Chance(1, 8) && !w.opts.Simple {
 				w.feature("nested-table")
 				b.WriteString(w.table(depth + 1))
 				b.WriteString(w.paragraph(depth + 1))
 			}
-			b.WriteString("</" + w.el("tc") + ">")
+			b.WriteString("</" + w.el("tc") + ">" + cellClose)
+			w.block = cellBlock
 		}
-		b.WriteString("</" + w.el("tr") + ">")
+		b.WriteString("</" + w.el("tr") + ">" + rowClose)
+		w.block = savedBlock
 	}
 	b.WriteString("</" + w.el("tbl") + ">")
 	return b.String()
